@@ -22,7 +22,7 @@ T = {
          "spec-side augmented system built from the public matrix; tolerances 2e-3 on gradients",
          "TLA+ certificate (Certificates.tla) checked by TLC on traces + TLC meta-model-check of the certificate"),
  "C16": (MC, "§6.16", "Exclusion set, column order, -1 positions and the restricted solve are TLA+ clauses judged by TLC on catalogue tissues (incl. exactly straight-through pairs) and random tissues over a grid of limits; MC_AngleLimit explores the bookkeeping (flag subsets -> excluded set -> re-insertion alignment) exhaustively on small graphs.",
-         "directions = the implementation's own unit tangents (C02 judges them); threshold band of 2e-4 in cosine rejected",
+         "the rule is evaluated on the implementation's own unit tangents, which clause C16.directions compares with the true tangents of all interfaces at the junction, border ones included (known tangent defects excused); threshold band of 2e-4 in cosine rejected",
          "TLA+ spec + TLC model check of the exclusion bookkeeping + TLC trace validation"),
  "C08": (MC, "§6.8", "TLC enumerates every cell subset of the catalogue tissues x interior-point counts, checks the implementation-shaped decomposition against the declarative C08 verdict, and every enumerated instance is executed on the real Frame() and validated by TLC against the same verdict; random large tissues and fixtures are sampled.",
          "bounded-exhaustive over sub-tissues of the catalogue only; TLC, the Json module and the projection are trusted",
